@@ -366,6 +366,36 @@ impl<'a> G<'a> {
         self.steps.push(AStep { op: AOp::Connect { hash: self.next_hash, txs }, script });
     }
 
+    /// a block with exactly these transactions (those not mined yet), default node answers
+    fn connect_with(&mut self, want: &[u64], script: Script) {
+        let mut txs: Vec<u64> = Vec::new();
+        for t in want {
+            if !self.mined(*t) && !txs.contains(t) {
+                txs.push(*t);
+            }
+        }
+        self.next_hash += 1;
+        self.chain_txs.push(txs.clone());
+        self.steps.push(AStep { op: AOp::Connect { hash: self.next_hash, txs }, script });
+    }
+
+    /// a valid appointment of `u` on `loc` with a fresh (or, sometimes, an already known) penalty
+    fn add_valid(&mut self, u: u64, loc: u64) {
+        let known: Vec<u64> = self.pens.iter().filter(|p| p.0 == loc).map(|p| p.1).collect();
+        let pay = if !known.is_empty() && self.rng.chance(1, 4) {
+            *self.rng.pick(&known) as i64
+        } else {
+            self.next_pen += 1;
+            self.pens.push((loc, self.next_pen));
+            self.next_pen as i64
+        };
+        let len = self.len_choice(false);
+        let delay = self.rng.below(2000) as u32;
+        let salt = self.rng.below(1 << 20);
+        self.submitted.push((u, loc, loc, pay, len, delay));
+        self.steps.push(AStep { op: AOp::Add { signer: u as i64, class: 0, loc, key: loc, pay, len, delay, salt }, script: vec![] });
+    }
+
     fn disconnect(&mut self) {
         if self.chain_txs.is_empty() {
             return;
@@ -396,6 +426,94 @@ pub fn generate(rng: &mut Rng, profile: &str, index: u64) -> AHistory {
         orphaned: vec![],
         steps: vec![],
     };
+    // "complete": several responses of the same user(s) confirmed together and walked to completion
+    // (batch refunds, completion next to purges and renewals) - subscriptions long enough to get there
+    if profile == "complete" || (profile == "mixed" && index % 10 == 4) {
+        g.users.clear();
+        let slots = *g.rng.pick(&[8u32, 21, 21, 100]);
+        let duration = *g.rng.pick(&[120u32, 200, 200, 500]);
+        let cfg = Cfg { slots, duration, delta };
+        g.locs = (1..=(4 + g.rng.below(3))).collect();
+        let nu = 1 + g.rng.below(2);
+        for u in 0..nu {
+            g.users.push(u);
+            g.steps.push(AStep { op: AOp::Register(u), script: vec![] });
+            if g.rng.chance(1, 3) {
+                g.steps.push(AStep { op: AOp::Register(u), script: vec![] });
+            }
+        }
+        let mut disputes: Vec<u64> = vec![];
+        for u in 0..nu {
+            let k = 2 + g.rng.below(3);
+            let mut locs = g.locs.clone();
+            for _ in 0..k {
+                if locs.is_empty() {
+                    break;
+                }
+                let i = g.rng.below(locs.len() as u64) as usize;
+                let loc = locs.remove(i);
+                g.add_valid(u, loc);
+                if !disputes.contains(&loc) {
+                    disputes.push(loc);
+                }
+            }
+        }
+        for _ in 0..g.rng.below(4) {
+            if g.rng.chance(1, 2) {
+                g.add();
+            } else {
+                g.get();
+            }
+        }
+        // the disputes: all in one block, or spread over two
+        if g.rng.chance(2, 3) {
+            g.connect_with(&disputes, vec![]);
+        } else {
+            let cut = 1 + g.rng.below(disputes.len() as u64) as usize;
+            g.connect_with(&disputes[..cut.min(disputes.len())], vec![]);
+            g.connect_with(&disputes[cut.min(disputes.len())..], vec![]);
+        }
+        g.get();
+        // the penalties: confirmed together (same height), or in two consecutive blocks
+        let pens = g.all_pens();
+        if g.rng.chance(2, 3) {
+            g.connect_with(&pens, vec![]);
+        } else {
+            let cut = g.rng.below(pens.len() as u64 + 1) as usize;
+            g.connect_with(&pens[..cut], vec![]);
+            g.connect_with(&pens[cut..], vec![]);
+        }
+        // sometimes a reorg of the confirming block(s), re-mined at once or a block later
+        if g.rng.chance(1, 4) {
+            let d = 1 + g.rng.below(2);
+            for _ in 0..d {
+                g.disconnect();
+            }
+            if g.rng.chance(1, 2) {
+                g.connect(true);
+            }
+            g.connect_with(&pens, vec![]);
+            for _ in 0..d {
+                g.connect(true);
+            }
+        }
+        let n = 99 + g.rng.below(8);
+        for i in 0..n {
+            let sc = if g.rng.chance(5, 6) { vec![] } else { let t = g.all_pens(); g.script_for(&t) };
+            g.connect_with(&[], sc);
+            if i % 23 == 7 {
+                g.get();
+            }
+            if i == 50 && g.rng.chance(1, 3) {
+                g.register();
+            }
+        }
+        g.get();
+        g.steps.push(AStep { op: AOp::GetSub { signer: 0, class: 0 }, script: vec![] });
+        g.add();
+        g.connect(false);
+        return AHistory { cfg, steps: g.steps };
+    }
     let deep = profile == "deep" || (profile == "mixed" && index % 10 == 9);
     let target = if deep { 30 + g.rng.below(30) } else { 12 + g.rng.below(50) } as usize;
     g.register();
